@@ -7,7 +7,7 @@ import engine, specutil
 def all_targets():
     import t_macros
     ts = list(t_macros.TARGETS)
-    for mod in ("t_vm", "t_values", "t_compile", "t_serde", "t_token", "t_details"):
+    for mod in ("t_vm", "t_values", "t_compile", "t_serde", "t_token", "t_details", "t_dispatch"):
         try:
             m = __import__(mod)
             ts += m.TARGETS
@@ -71,7 +71,8 @@ def run_target(P, t, time_budget=600):
         t["check"](res, V)
     t0 = time.time()
     try:
-        stats, used = engine.explore(P, t["cfg"], f, lambda ex: t["make_args"](ex, f), on_path, time_budget=time_budget, max_paths=t.get("max_paths", 20000))
+        cfg = t["cfg"] if t.get("cfg") is not None else t["cfg_fn"]()
+        stats, used = engine.explore(P, cfg, f, lambda ex: t["make_args"](ex, f), on_path, time_budget=time_budget, max_paths=t.get("max_paths", 20000))
     except Exception as e:
         traceback.print_exc()
         return dict(name=t["name"], props=t["props"], status="inconclusive", why=f"engine error: {type(e).__name__}: {e}", obligations=V.obligations, discharged=V.discharged, failures=V.failures, paths=V.paths)
